@@ -38,6 +38,9 @@ def dispatch(prop, tier):
     if prop in ('C16', 'C20'):
         from harness.checks import files
         return getattr(files, 'run_' + prop.lower())(tier)
+    if prop == 'C17':
+        from harness.checks import frontends
+        return frontends.run_c17(tier)
     raise core.Infra('no check registered for %s' % prop)
 
 
